@@ -55,7 +55,7 @@ def run(ctx):
     edges = ctx.gen("Wallet", "Wallet_gen_quick.cfg" if q else "Wallet_gen_thorough.cfg", "EDGE", timeout=1500)
     if len(edges) < 1500:
         ctx.fail("too few edges generated: %d" % len(edges))
-    out = ctx.driver(b, ["edges"], input_obj=edges, timeout=3000)
+    out = ctx.driver(b, ["edges"], input_obj=edges, timeout=14000)   # generous: scrypt-bound, machine may be shared
     summ = [o for o in out if o.get("summary")]
     if not summ or summ[0]["edges"] != len(edges):
         ctx.fail("driver did not replay all %d edges" % len(edges))
@@ -103,7 +103,7 @@ def run(ctx):
 
     # ---- P-VALIDATE: long random histories
     n, ln = (16, 30) if q else (96, 60)
-    rec = ctx.driver(b, ["record", str(n), str(ln)], timeout=3000)
+    rec = ctx.driver(b, ["record", str(n), str(ln)], timeout=14000)
     rec = sorted([o for o in rec if "trace" in o], key=lambda o: o["trace"])
     if len(rec) != n:
         ctx.fail("driver recorded %d of %d histories" % (len(rec), n))
